@@ -87,6 +87,7 @@ func init() {
 			R52(),
 			R45(),
 			R06(),
+			Only(R02R03(), fns(rpcMutateRow, rpcMutateRows)),
 			R08(Only8("applyMutations")),
 			R28(),
 			R36(),
@@ -119,6 +120,7 @@ func init() {
 	Properties["C03"] = &PropertySpec{
 		Modules: bt,
 		Rules: []Rule{
+			Only(R59(), `^a/|^d/`),
 			Only(R54(), `^\(\*server\)\.ReadRows`, `^mergeRowRanges`, `^mergeSimpleRanges`, `^no-carried`),
 			Only(R53(), `^b/`),
 			Only(R43(), fns("(*server).ReadRows")),
@@ -164,6 +166,7 @@ func init() {
 	Properties["C06"] = &PropertySpec{
 		Modules: bt,
 		Rules: []Rule{
+			Only(R59(), `^c/`),
 			Only(R58(), `^d/`),
 			R50(),
 			Only(R01(map[string]int{"table.rows": 7}), `/table\.rows/`, fns(writeRPCs...)),
@@ -214,6 +217,7 @@ func init() {
 	Properties["C09"] = &PropertySpec{
 		Modules: st,
 		Rules: []Rule{
+			Only(R59(), `^b/`),
 			Only(R58(), `^c/`),
 			R56(),
 			R49(),
@@ -313,6 +317,7 @@ func init() {
 	Properties["C15"] = &PropertySpec{
 		Modules: st,
 		Rules: []Rule{
+			Only(R59(), `^b/`),
 			Only(R56(), `^a/`),
 			Only(R54(), `Compose`, `^no-carried`),
 			R46(),
@@ -334,6 +339,7 @@ func init() {
 	Properties["C16"] = &PropertySpec{
 		Modules: bt,
 		Rules: []Rule{
+			Only(R59(), `^c/`),
 			Only(R55(), `^b/`, `^c/`),
 			R47(),
 			R45(),
@@ -364,6 +370,7 @@ func init() {
 	Properties["C18"] = &PropertySpec{
 		Modules: bt,
 		Rules: []Rule{
+			Only(R59(), `^a/`),
 			R06(),
 			Only(R02R03(), fns("(*table).gc")),
 			Only(R55(), `^c/`, `^d/`),
